@@ -2328,6 +2328,10 @@ func (c *Client) doRecord() (*base.Response, error) {
 		return nil, err
 	}
 
+	if c.setuppedTransport == nil {
+		return nil, fmt.Errorf("no media has been set up")
+	}
+
 	c.state = clientStateRecord
 	c.startTransportRoutines()
 	c.createWriter()
